@@ -167,3 +167,36 @@ class _ClassDeco:
 @_ClassDeco
 def class_decorated(x=None):
     return x
+
+
+# two unrelated bases inherited in both orders (linearisations disagree on which comes first)
+class DX:
+    pass
+
+
+class DY:
+    pass
+
+
+class DA(DX, DY):
+    pass
+
+
+class DB(DY, DX):
+    pass
+
+
+class DC(DX, DY):
+    pass
+
+
+class DD(DY, DX):
+    pass
+
+
+class DE(DX, DY):
+    pass
+
+
+class DF(DY, DX):
+    pass
